@@ -297,6 +297,9 @@ func extractCallSignature(call *ssa.Call) string {
 		if v == call.Parent() {
 			return "self:recursive"
 		}
+		if isSelfReference(v, call.Parent()) {
+			return "self:recursive"
+		}
 		return extractFunctionSig(v)
 	case *ssa.Builtin:
 		return fmt.Sprintf("builtin:%s", v.Name())
@@ -326,6 +329,9 @@ func extractGoSignature(g *ssa.Go) string {
 
 	switch v := g.Call.Value.(type) {
 	case *ssa.Function:
+		if isSelfReference(v, g.Parent()) {
+			return "self:recursive"
+		}
 		return extractFunctionSig(v)
 	case *ssa.MakeClosure:
 		if sig := extractClosureSignature(v); sig != "" {
@@ -348,6 +354,9 @@ func extractDeferSignature(d *ssa.Defer) string {
 
 	switch v := d.Call.Value.(type) {
 	case *ssa.Function:
+		if isSelfReference(v, d.Parent()) {
+			return "self:recursive"
+		}
 		return extractFunctionSig(v)
 	case *ssa.MakeClosure:
 		if sig := extractClosureSignature(v); sig != "" {
@@ -358,6 +367,23 @@ func extractDeferSignature(d *ssa.Defer) string {
 		return fmt.Sprintf("dynamic:%s", normalizeTypeName(d.Call.Value.Type()))
 	}
 	return "unknown"
+}
+
+// isSelfReference reports whether callee is the function that from belongs to: from itself, the
+// top-level function enclosing the function literal from, or an instantiation or method wrapper
+// of that function. Such a call must not put the function's own name into its call profile.
+func isSelfReference(callee, from *ssa.Function) bool {
+	if callee == nil || from == nil {
+		return false
+	}
+	root := from
+	for root.Parent() != nil {
+		root = root.Parent()
+	}
+	if callee == from || callee == root {
+		return true
+	}
+	return callee.Object() != nil && callee.Object() == root.Object()
 }
 
 func extractClosureSignature(v *ssa.MakeClosure) string {
